@@ -1,6 +1,7 @@
 TEXTS = {
     "_hooks": ["9e4b57e verif: exported wrappers for in-package units (build tag verif)", "2b723cb verif: gofmt hook file",
-               "6c34214 verif: scheduling-point hook in controller.distributeEvents (no-op without build tag verif; verif_yield_off.go)"],
+               "6c34214 verif: scheduling-point hook in controller.distributeEvents (no-op without build tag verif; verif_yield_off.go)",
+               "b02e7f8 verif: export the filtered-subscription constructor (build tag verif)"],
     "C01": {
         "text": "Lean theorems over the code-shaped cache model, for every filter, content, object universe and operation history: "
                 "sync/refilter refine the per-key newest-accepted reference semantics (any list without a doubly-listed key), updates are "
